@@ -181,7 +181,13 @@ class H2Run(AsyncRun):
                 en.append(("srv", ci, "next", sid))
             if ci == 0:
                 if self.settings_sent < len(self.srv["settings"]):
-                    en.append(("srv", 0, "settings"))
+                    # one SETTINGS frame outstanding at a time: the h2 library on the server side applies the
+                    # OLDEST pending change on every ACK it receives and does not count the frame sent with
+                    # the preface, so with several frames in flight it would enforce a change one ACK early
+                    # (and answer a client that is within its rights with FLOW_CONTROL_ERROR)
+                    owed = 1 + (1 if getattr(peer, "late_settings", None) else 0) + self.settings_sent
+                    if peer.events_log.count("SettingsAcknowledged") >= owed:
+                        en.append(("srv", 0, "settings"))
                 if self.srv["goaway"] is not None and not self.goaway_sent and peer.by_stream:
                     # a consistent server: it has not started to answer any stream it then refuses
                     if not any(pr.get("head") for (c2, s2), pr in self.progress.items() if c2 == 0 and s2 > self.srv["goaway"]):
